@@ -312,7 +312,13 @@ func trimIfWildcard(value string) (string, bool) {
 }
 
 func newAuthorization(ctx context.Context, az *acme.Authorization) error {
-	value, isWildcard := trimIfWildcard(az.Identifier.Value)
+	// Only DNS names have a wildcard form; a permanent identifier or any other
+	// identifier that begins with "*." is that string, not a wildcard for the
+	// rest of it.
+	value, isWildcard := az.Identifier.Value, false
+	if az.Identifier.Type == acme.DNS {
+		value, isWildcard = trimIfWildcard(value)
+	}
 	az.Wildcard = isWildcard
 	az.Identifier = acme.Identifier{
 		Value: value,
